@@ -495,9 +495,9 @@ class MetadorGroup(MetadorNode):
         self.__wrapped__.copy(source, dst_path, **copy_kwargs)  # RAW
         dst_node = self[dst_path]  # exists now
 
-        if src_is_dataset and not without_meta:
+        src_meta: str = src_node.meta._base_dir
+        if src_is_dataset and not without_meta and src_meta in self.__wrapped__:
             # because metadata lives in parallel group, need to copy separately:
-            src_meta: str = src_node.meta._base_dir
             dst_meta: str = dst_node.meta._base_dir  # node will not exist yet
             self.__wrapped__.copy(src_meta, dst_meta, **copy_kwargs)  # RAW
 
